@@ -102,7 +102,8 @@ SITE = re.compile(
     r"|\b(tag)\(\s*\$char\s*\)"                                             # 7
     r"|\b(escaped)\("                                                       # 8
     r"|(gen_parse_quote)!\(\s*\w+\s*,\s*" + STR + r"\s*\)"                  # 9,10
-    r"|" + STR + r"\s*=>\s*(unpack)!\((\w+)\)",                             # 11,12,13
+    r"|" + STR + r"\s*=>\s*(unpack)!\((\w+)\)"                              # 11,12,13
+    r"|\.(scope)\.0\s*==\s*" + STR,                                       # 14,15
     flags=re.S)
 
 
@@ -127,6 +128,8 @@ def sites(src):
             out.append(("quote", unescape(m.group(10))))
         elif m.group(12):
             out.append(("arm:" + m.group(13), unescape(m.group(11))))
+        elif m.group(14):
+            out.append(("scope_eq", unescape(m.group(15))))
     return out
 
 
@@ -170,7 +173,8 @@ SHAPES = {
     "thrift.rs": [("arm:Include", "arm_include"), ("arm:CppInclude", "arm_cpp_include"),
                   ("arm:Namespace", "arm_namespace"), ("arm:Typedef", "arm_typedef"), ("arm:Constant", "arm_const"),
                   ("arm:Enum", "arm_enum"), ("arm:Struct", "arm_struct"), ("arm:Union", "arm_union"),
-                  ("arm:Exception", "arm_exception"), ("arm:Service", "arm_service")],
+                  ("arm:Exception", "arm_exception"), ("arm:Service", "arm_service"),
+                  ("scope_eq", "package_scope")],
 }
 
 # character-class closures and other code-like sites whose text is pinned (a change means the hand model
@@ -195,7 +199,7 @@ def coq_bytes(b):
 
 def comment_of(b):
     s = b.decode("latin-1")
-    s = "".join(ch if 32 <= ord(ch) < 127 and ch not in "*()" else "?" for ch in s)
+    s = "".join(ch if 32 <= ord(ch) < 127 and ch not in "*()\"" else "?" for ch in s)
     return s
 
 
@@ -216,7 +220,7 @@ def gen_consts(repo):
             if role in allvals:
                 die(f"duplicate role {role}")
             allvals[role] = val
-            out.append(f"Definition {role} : list byte := {coq_bytes(val)}.  (* {kind} \"{comment_of(val)}\" *)")
+            out.append(f"Definition {role} : list byte := {coq_bytes(val)}.  (* {kind} <{comment_of(val)}> *)")
         out.append("")
     for fn, rx, cnt in PINNED:
         src = strip_tests_and_comments(read(repo, os.path.join(PARSER_DIR, fn)))
